@@ -119,6 +119,12 @@ def length_of(eng, st, v):
 
 
 def b_len(eng, st, args, kwargs):
+    v = args[0]
+    if isinstance(v, VUnion):
+        nones = [g for g, a in v.alts if isinstance(a, VNoneT)]
+        rest = [(g, a) for g, a in v.alts if not isinstance(a, VNoneT)]
+        if nones and rest and implied(st, z3.Not(z3.Or(*nones))):
+            return ok(st, mk_union([(g, length_of(eng, st, a)) for g, a in rest]))
     out = []
     for s, v in eng.split_union(args[0], st):
         if isinstance(v, VNoneT):
@@ -235,19 +241,22 @@ def b_isinstance(eng, st, args, kwargs):
     return out
 
 
+def _type_value(eng, st, v):
+    c = class_of_value(eng, st, v)
+    if c is not None:
+        return VClass(c)
+    if isinstance(v, VBytes):
+        return mk_union([(v.kind == 0, VClass(bytes)), (v.kind == 1, VClass(bytearray)), (v.kind == 2, VClass(memoryview))])
+    if isinstance(v, VObj):
+        return VFunc("typeof", obj=v)
+    raise Unsupported(f"type() of {v}")
+
+
 def b_type(eng, st, args, kwargs):
-    out = []
-    for s, v in eng.split_union(args[0], st):
-        c = class_of_value(eng, s, v)
-        if c is not None:
-            out.append((s, VClass(c)))
-        elif isinstance(v, VBytes):
-            out.append((s, mk_union([(v.kind == 0, VClass(bytes)), (v.kind == 1, VClass(bytearray)), (v.kind == 2, VClass(memoryview))])))
-        elif isinstance(v, VObj):
-            out.append((s, VFunc("typeof", obj=v)))
-        else:
-            raise Unsupported(f"type() of {v}")
-    return out
+    v = args[0]
+    if isinstance(v, VUnion):          # no forking: type() is total
+        return ok(st, mk_union([(g, _type_value(eng, st, a)) for g, a in v.alts]))
+    return ok(st, _type_value(eng, st, v))
 
 
 def b_int(eng, st, args, kwargs):
@@ -492,11 +501,23 @@ def norm_index(i, n):
     return simp(z3.If(i < 0, i + n, i))
 
 
-def clamp_slice(lo, hi, n):
+def implied(st, c):
+    """Is c a consequence of the path condition?  (used only to pick simpler, equivalent encodings)"""
+    c = simp(c)
+    if z3.is_true(c):
+        return True
+    if z3.is_false(c):
+        return False
+    return not smt.feasible(st.pc, z3.Not(c), timeout_ms=100)
+
+
+def clamp_slice(lo, hi, n, st=None):
     """(start, stop) after Python's slice clamping for step 1."""
     def clamp(x, default):
         if x is None:
             return default
+        if st is not None and implied(st, z3.And(x >= 0, x <= n)):
+            return x
         x = z3.If(x < 0, x + n, x)
         return z3.If(x < 0, z3.IntVal(0), z3.If(x > n, n, x))
     return simp(clamp(lo, z3.IntVal(0))), simp(clamp(hi, n))
@@ -513,8 +534,9 @@ def slice_(eng, st, base, lo, hi, step):
     if isinstance(base, (VBytes, VStr, VSeq)) or (o is not None and o.kind == "buf"):
         e = o.f["e"] if o is not None else base.e
         n = z3.Length(e)
-        a, b = clamp_slice(lo_e, hi_e, n)
-        r = simp(z3.SubSeq(e, a, z3.If(b > a, b - a, z3.IntVal(0))))
+        a, b = clamp_slice(lo_e, hi_e, n, st)
+        ln = (b - a) if implied(st, b >= a) else z3.If(b > a, b - a, z3.IntVal(0))
+        r = simp(z3.SubSeq(e, a, ln))
         if isinstance(base, VStr):
             return VStr(r)
         if isinstance(base, VSeq):
@@ -551,13 +573,15 @@ def index_(eng, st, base, idx):
             if not tv:
                 out.append((s2, eng.raise_py(s2, IndexError, "index out of range")))
                 continue
-            j = norm_index(i, n)
+            j = i if implied(s2, i >= 0) else norm_index(i, n)
             if isinstance(base, VStr):
                 out.append((s2, VStr(simp(z3.SubString(e, j, 1)))))
             elif isinstance(base, VSeq):
                 out.append((s2, decode_elem(eng, s2, e[j], base.elem)))
             else:
-                out.append((s2, VInt(simp(e[j]))))
+                x = e[j]                                   # (not simplified: z3 would expand nth into nth_i/nth_u)
+                s2.fact(z3.And(x >= 0, x <= 255))        # type invariant of bytes, instantiated at this index
+                out.append((s2, VInt(x)))
         return out
     if isinstance(base, VTuple) or (o is not None and o.kind == "list"):
         items = eng.iter_concrete(base, st)
@@ -1116,7 +1140,7 @@ def m_slist_append(eng, st, recv, args, kwargs):
     old = o.f["e"]
     new = simp(z3.Concat(old, z3.Unit(x)))
     if o.f["elem"].head == "bytes":
-        st.assume(joinb_f(new) == z3.Concat(joinb_f(old), x))      # definition of join, instantiated here
+        st.fact(joinb_f(new) == z3.Concat(joinb_f(old), x))      # definition of join, instantiated here
     o.f["e"] = new
     return ok(st, VNone)
 
